@@ -61,6 +61,9 @@ type c09Opts struct {
 	// singleCut: the first body is cut (at every offset, either way) and every reconnect is then served
 	// in full: exactly one cut per execution, so a symptom is attributable to that one position
 	singleCut bool
+	// handshake: the stream that is cut is the response stream of the initialize request (a server may
+	// answer any POST with an event stream); the tool call afterwards is answered plainly
+	handshake bool
 }
 
 type c09Body struct {
@@ -261,12 +264,17 @@ func (s *c09Script) roundTrip(req *http.Request, n int) (*http.Response, error) 
 	body, _ := io.ReadAll(req.Body)
 	bs := string(body)
 	switch {
+	case req.Method == "POST" && strings.Contains(bs, `"initialize"`) && s.o.handshake:
+		s.started = true
+		r := s.serve(0, "every")
+		r.Header.Set("Mcp-Session-Id", "sess-1")
+		return r, nil
 	case req.Method == "POST" && strings.Contains(bs, `"initialize"`):
 		r := s.resp(200, "application/json", io.NopCloser(strings.NewReader(`{"jsonrpc":"2.0","id":1,"result":{"protocolVersion":"2025-06-18","capabilities":{"tools":{}},"serverInfo":{"name":"script","version":"1"}}}`)))
 		r.Header.Set("Mcp-Session-Id", "sess-1")
 		return r, nil
 	case req.Method == "POST" && strings.Contains(bs, `"tools/call"`):
-		if s.o.standalone {
+		if s.o.standalone || s.o.handshake {
 			return s.resp(200, "application/json", io.NopCloser(strings.NewReader(`{"jsonrpc":"2.0","id":`+s.callID+`,"result":{"content":[{"type":"text","text":"done"}]}}`))), nil
 		}
 		s.started = true
@@ -421,6 +429,9 @@ func c09Run(o c09Opts, ch *verifx.Chooser) (obs, bad, sig string, steps int) {
 	if o.notes > 0 {
 		nNotes = o.notes
 	}
+	if o.handshake {
+		nNotes = 0
+	}
 	for i := 1; i <= nNotes; i++ {
 		sc.events = append(sc.events, c09Event{id: id(k + i - 1), data: note(i)})
 	}
@@ -431,7 +442,11 @@ func c09Run(o c09Opts, ch *verifx.Chooser) (obs, bad, sig string, steps int) {
 			delivered = append(delivered, int(r.Params.Progress))
 		}})
 	tr := &StreamableClientTransport{Endpoint: "http://example.test/mcp", HTTPClient: hx.client(), MaxRetries: o.maxRetries}
-	if !o.standalone {
+	if o.handshake {
+		// the logical stream is the answer to initialize (id 1); the call (id 2) is answered plainly
+		sc.callID = "2"
+		sc.events = append(sc.events, c09Event{id: id(k), data: `{"jsonrpc":"2.0","id":1,"result":{"protocolVersion":"2025-06-18","capabilities":{"tools":{}},"serverInfo":{"name":"script","version":"1"}}}`})
+	} else if !o.standalone {
 		// the call's id is 2 (initialize is 1): the response event closes the logical stream
 		sc.callID = "2"
 		sc.events = append(sc.events, c09Event{id: id(k + nNotes), data: `{"jsonrpc":"2.0","id":2,"result":{"content":[{"type":"text","text":"done"}]}}`})
@@ -444,7 +459,7 @@ func c09Run(o c09Opts, ch *verifx.Chooser) (obs, bad, sig string, steps int) {
 		}
 	}
 	cs, err := client.Connect(ctx, tr, &ClientSessionOptions{ProtocolVersion: "2025-06-18"})
-	if err != nil {
+	if err != nil && !o.handshake {
 		if o.standalone {
 			// the standalone stream is opened during Connect: its failure may surface here
 			return "connect-error", "", "", 1
@@ -453,7 +468,10 @@ func c09Run(o c09Opts, ch *verifx.Chooser) (obs, bad, sig string, steps int) {
 	}
 	var res *CallToolResult
 	var callErr error
-	if !o.standalone {
+	if o.handshake && err != nil {
+		// Connect is the call whose stream was cut: judged like any other call below
+		callErr = fmt.Errorf("Connect: %w", err)
+	} else if !o.standalone {
 		res, callErr = cs.CallTool(ctx, &CallToolParams{Name: "t", Arguments: map[string]any{}, Meta: Meta{"progressToken": "tok"}})
 		synctest.Wait() // notification handlers run asynchronously to the call's return
 	} else {
@@ -526,7 +544,9 @@ func c09Run(o c09Opts, ch *verifx.Chooser) (obs, bad, sig string, steps int) {
 		bad += " exchanges: " + strings.Join(tr, " ")
 	}
 	// the session stays consistent: closing must not hang
-	cs.Close()
+	if cs != nil {
+		cs.Close()
+	}
 	cls := "ok"
 	if callErr != nil {
 		cls = "error"
@@ -565,6 +585,8 @@ func TestVerifC09(t *testing.T) {
 		mk("post-stream/ids/retries=2/empty-resumes", c09Opts{ids: true, maxRetries: 2, emptyResumes: true}),
 		mk("post-stream/ids/retries=2/empty-resumes-with-retry-field", c09Opts{ids: true, maxRetries: 2, emptyResumes: true, retryField: true}),
 		mk("post-stream/ids+priming+retry-fields/retries=1", c09Opts{ids: true, priming: true, maxRetries: 1, retryField: true}),
+		mk("handshake-stream/ids+priming/single-cut/retries=2", c09Opts{ids: true, priming: true, maxRetries: 2, singleCut: true, handshake: true}),
+		mk("handshake-stream/ids+priming/retries=1", c09Opts{ids: true, priming: true, maxRetries: 1, handshake: true}),
 		mk("standalone-stream/ids/retries=2", c09Opts{standalone: true, ids: true, maxRetries: 2}),
 		mk("post-stream/ids/12-events/retries=2", c09Opts{ids: true, maxRetries: 2, notes: 12}),
 		mk("post-stream/ids/retries=70/reconnects-always-fail", c09Opts{ids: true, maxRetries: 70, alwaysFail: true, notes: 12}),
